@@ -41,7 +41,7 @@ def params(tier):
     if tier == 'quick':
         return {'examples': 3000, 'wall': 80, 'case_timeout': 40}
 
-    return {'examples': 25000, 'wall': 1500, 'case_timeout': 60}
+    return {'examples': 25000, 'wall': 600, 'case_timeout': 60}
 
 
 def floors(tier):
